@@ -20,8 +20,8 @@ pub const STEER: u64 = 12;
 
 pub fn n_cases(ctx: &Ctx) -> u64 {
     let base = match (ctx.variant.as_str(), ctx.thorough()) {
-        ("miri", false) => 6,
-        ("miri", true) => 40,
+        ("miri", false) => 84,
+        ("miri", true) => 2000,
         ("tsan", false) => 150,
         ("tsan", true) => 1500,
         (_, false) => 2500,
